@@ -71,8 +71,19 @@ var c10Strings = []string{"x", "", "hello world", "a\"b\\c", "line\nbreak\ttab",
 func (g *c10GenT) bnode() string { return "_:b" + strconv.Itoa(g.r.Intn(4)) }
 
 type c10GenT struct {
-	r    *hx.Rand
-	feat map[string]int
+	r       *hx.Rand
+	feat    map[string]int
+	docLang string // the language most tagged strings of the data carry, and the one contexts tend to declare
+}
+
+func (g *c10GenT) lang() string {
+	if g.docLang == "" {
+		g.docLang = hx.Pick(g.r, c10Langs)
+	}
+	if g.r.Chance(2, 3) {
+		return g.docLang
+	}
+	return hx.Pick(g.r, c10Langs)
 }
 
 func (g *c10GenT) use(f string) { g.feat[f]++ }
@@ -83,9 +94,9 @@ func (g *c10GenT) literal() *c10Obj {
 	case 0, 1:
 		return &c10Obj{kind: 'l', lex: hx.Pick(r, c10Strings), dt: xsdNS + "string"}
 	case 2:
-		return &c10Obj{kind: 'l', lex: hx.Pick(r, c10Strings), dt: rdfNS + "langString", lang: hx.Pick(r, c10Langs)}
+		return &c10Obj{kind: 'l', lex: hx.Pick(r, c10Strings), dt: rdfNS + "langString", lang: g.lang()}
 	case 3:
-		return &c10Obj{kind: 'l', lex: hx.Pick(r, []string{"5", "-3", "0", "42", "9007199254740991", "-9007199254740991", "100000000000"}), dt: xsdNS + "integer"}
+		return &c10Obj{kind: 'l', lex: hx.Pick(r, append([]string{"5", "-3", "0", "42", "9007199254740991", "-9007199254740991", "100000000000"}, c10BigInts...)), dt: xsdNS + "integer"}
 	case 4:
 		return &c10Obj{kind: 'l', lex: hx.Pick(r, []string{"true", "false"}), dt: xsdNS + "boolean"}
 	case 5:
@@ -584,8 +595,8 @@ func (w *c10Writer) newContext(parent *c10Ctx, nested bool) (*jv, *c10Ctx) {
 		ents = append(ents, ent{"@vocab", jNull()})
 		w.g.use("@vocab-null")
 	}
-	if r.Chance(1, 5) {
-		c.lang = hx.Pick(r, c10Langs)
+	if r.Chance(1, 3) {
+		c.lang = w.g.lang()
 		ents = append(ents, ent{"@language", jStr(c.lang)})
 		w.g.use("@language")
 	} else if nested && c.lang != "" && r.Chance(1, 3) {
@@ -693,7 +704,7 @@ func (w *c10Writer) newContext(parent *c10Ctx, nested bool) (*jv, *c10Ctx) {
 				e.set("@type", jStr(c.defForm(r, td.typ)))
 				w.g.use("coerce-datatype")
 			case 3:
-				l := hx.Pick(r, c10Langs)
+				l := w.g.lang()
 				td.lang = &l
 				e.set("@language", jStr(l))
 				w.g.use("term-language")
@@ -874,6 +885,9 @@ func (w *c10Writer) keyFor(c *c10Ctx, p string, wantList bool, o *c10Obj) (strin
 	return k, c.terms[k]
 }
 
+// whole numbers beyond int64 which a double holds exactly and prints with these very digits
+var c10BigInts = []string{"10000000000000000000", "100000000000000000000", "-500000000000000000000"}
+
 func c10CanonInt(s string) (int64, bool) {
 	i, err := strconv.ParseInt(s, 10, 64)
 	if err != nil || strconv.FormatInt(i, 10) != s || i > 1<<53 || i < -(1<<53) {
@@ -935,12 +949,22 @@ func (w *c10Writer) literal(c *c10Ctx, td *c10Term, o *c10Obj) *jv {
 			opts = append(opts, nv)
 		}
 	}
-	if i, ok := c10CanonInt(o.lex); ok && o.lang == "" && o.dt != xsdNS+"double" && o.dt != xsdNS+"float" {
+	isBig := false
+	for _, b := range c10BigInts {
+		isBig = isBig || b == o.lex
+	}
+	mkInt := func(i int64) *jv {
+		if isBig {
+			return &jv{k: 'i', s: o.lex}
+		}
+		return jInt(i)
+	}
+	if i, ok := c10CanonInt(o.lex); (ok || isBig) && o.lang == "" && o.dt != xsdNS+"double" && o.dt != xsdNS+"float" {
 		if nativeDT(xsdNS+"integer") == o.dt {
-			opts = append(opts, jInt(i), jInt(i))
+			opts = append(opts, mkInt(i), mkInt(i))
 			w.g.use("native-integer")
 		}
-		nv := jObj().set("@value", jInt(i))
+		nv := jObj().set("@value", mkInt(i))
 		if o.dt != xsdNS+"integer" || r.Bool() {
 			nv.set("@type", jStr(c.form(r, o.dt, true, true)))
 		}
@@ -991,7 +1015,7 @@ func (w *c10Writer) node(c *c10Ctx, n *c10Node, top bool, depth int) *jv {
 	r := w.r
 	w.written[n] = true
 	o := jObj()
-	if depth < 3 && !w.noNest && r.Chance(1, 8) {
+	if depth < 3 && !w.noNest && r.Chance(1, 5) {
 		if cj, nc := w.context(c, true); cj != nil {
 			o.set("@context", cj)
 			c = nc
